@@ -863,7 +863,7 @@ pub fn run(args: &Args) -> i32 {
     // 4. random sets with adversarial keys; fixed boundary sizes first
     let b4 = budget.slice(0.2);
     let sizes = [0usize, 1, 2, 1023, 1024, 1025, 4096, 5000];
-    let n_cases = args.by_tier(600u64, 6000);
+    let n_cases = args.by_tier(600u64, 30_000);
     run_shards(&mut rep, jobs, jobs, |shard, rep| {
         let mut case = shard as u64;
         while case < n_cases && !b4.expired() {
